@@ -1,0 +1,20 @@
+//go:build verif
+
+package cli
+
+// VerifLoop wraps the unexported event loop for the verification harness.
+type VerifLoop struct{ lp *loop }
+
+// VerifNewLoop creates a loop whose callbacks report to the given functions.
+func VerifNewLoop(handle func(ev any), redraw func(full, final bool)) *VerifLoop {
+	lp := newLoop()
+	lp.HandleCb(func(e event) { handle(e) })
+	lp.RedrawCb(func(flag redrawFlag) { redraw(flag&fullRedraw != 0, flag&finalRedraw != 0) })
+	return &VerifLoop{lp}
+}
+
+func (l *VerifLoop) Redraw(full bool)                { l.lp.Redraw(full) }
+func (l *VerifLoop) Input(ev any)                    { l.lp.Input(ev) }
+func (l *VerifLoop) Return(buffer string, err error) { l.lp.Return(buffer, err) }
+func (l *VerifLoop) HasReturned() bool               { return l.lp.HasReturned() }
+func (l *VerifLoop) Run() (string, error)            { return l.lp.Run() }
